@@ -210,6 +210,9 @@ def r10b(ctx: Context) -> None:
         # step 2: up the chain to the per-run driver
         callee, index = writer, flag_index
         driver = prog.method(FSH, "process_files_to_scan")
+        per_file = prog.method(FSH, "__fix_specific_file")
+        above_per_file: List[FuncInfo] = []  # helpers between the per-file function and the per-run driver
+        consumed = (writer, flag_index)  # (function, index) whose result the driver finally consumes
         guard_hops = 0
         while callee != driver and guard_hops < 8:
             guard_hops += 1
@@ -218,9 +221,12 @@ def r10b(ctx: Context) -> None:
                 raise AnalysisError(f"{callee.short}: expected one caller on the fix chain, found {len(callers)}")
             caller = callers[0].caller
             want = f"call:{callee.short}[{index}]"
+            consumed = (callee, index)
             if caller == driver:
                 callee = caller
                 break
+            if callee == per_file or above_per_file:
+                above_per_file.append(caller)
             found = None
             for ret in returns_of(caller):
                 elts = ret.elts if isinstance(ret, ast.Tuple) else [ret]
@@ -239,24 +245,33 @@ def r10b(ctx: Context) -> None:
                 rule.ok(ckey, f"return[{found[0]}] derives only from {want} and False")
             callee, index = caller, found[0]
         # step 3: the driver: announcement and per-run flag guarded by that flag
-        want = f"call:{callee.short if callee != driver else ''}"
-        announce_sites = [s for s in prog.sites_in(driver) if isinstance(s.node.func, ast.Attribute) and s.node.func.attr == "print_fix_message"]
+        # the announcement sits in the driver or in a helper between it and the per-file function
+        announce_sites = [
+            (holder, s) for holder in [driver] + above_per_file for s in prog.sites_in(holder)
+            if isinstance(s.node.func, ast.Attribute) and s.node.func.attr == "print_fix_message"
+        ]
         if not announce_sites:
             rule.fail(f"{driver.short}: announcement", where(driver), "the per-run driver no longer announces fixed files")
             return
-        per_file = prog.method(FSH, "__fix_specific_file")
-        want = f"call:{per_file.short}"
-        for site in announce_sites:
+        driver_want = f"call:{consumed[0].short}[{consumed[1]}]" if consumed[1] >= 0 else f"call:{consumed[0].short}"
+        for holder, site in announce_sites:
             leaves: Set[str] = set()
-            for test, polarity in guards_of(driver.node, site.node):
+            for test, polarity in guards_of(holder.node, site.node):
                 if polarity:
-                    leaves |= provenance(prog, driver, test)
-            akey = func_key(driver, site.node)
-            flag_leaf = [leaf for leaf in leaves if leaf.startswith(want)]
+                    leaves |= provenance(prog, holder, test)
+            akey = func_key(holder, site.node)
+            # in the driver the flag arrives from the last helper, in a helper from the function below it
+            wanted_here = driver_want if holder == driver else None
+            if wanted_here is None:
+                position = above_per_file.index(holder)
+                below = per_file if position == 0 else above_per_file[position - 1]
+                wanted_here = f"call:{below.short}"
+            flag_leaf = [leaf for leaf in leaves if leaf.startswith(wanted_here)]
             if not flag_leaf:
-                rule.fail(akey, site.where, f"'Fixed:' is printed under {sorted(leaves)}, which is not the fixed flag returned by {per_file.short}")
+                rule.fail(akey, site.where, f"'Fixed:' is printed under {sorted(leaves)}, which is not the fixed flag handed up from {wanted_here[5:]}")
                 continue
             rule.ok(akey, f"guarded by {flag_leaf}")
+            flag_leaf = [leaf for leaf in {l for elt in (returns_of(driver)[0].elts if returns_of(driver) and isinstance(returns_of(driver)[0], ast.Tuple) else []) for l in provenance(prog, driver, elt)} if leaf.startswith(driver_want.split("[")[0])] or flag_leaf
             # per-run flag (returned index by role from C18) is set under the same guard
             rets = returns_of(driver)
             if rets and isinstance(rets[0], ast.Tuple):
